@@ -290,6 +290,121 @@ let edit_steps fixed cap (c : cfg) bps cmds sched : int list =
       end) sched;
   !acc
 
+
+(* ---- the command-line front end (debugger/src/main.rs) ------------------------------------------
+   A session = options (-b <rule>.. [-r <rule>]) followed by command lines.  main.rs turns it into the controller history
+   add*, [run, recv], then per line: b -> add, d -> delete, ba -> add-all, da -> delete each, r -> run, recv, c -> cont, recv (only if cont() = Ok).
+   The front end waits for the answer of every run / cont before it reads the next line, so the parsing thread is always blocked
+   (parked, in send, or finished) when the next command starts: the model is run with the parsing thread taking every step it can first. *)
+let cli_lines s = List.filter (fun x -> x <> "") (String.split_on_char ',' s)
+
+let cli_model fixed (c : cfg) nnames (argb : int list) (argr : bool) (lines : string list) : string =
+  let cf = config fixed 1 in
+  let s = ref (M.init [] []) in
+  let settle () =
+    let fuel = ref 100000 and go = ref true in
+    while !go && !fuel > 0 do
+      decr fuel;
+      if M.enabled cf !s M.P then (match mstep cf !s M.P with Some s' -> s := s' | None -> go := false)
+      else if M.enabled cf !s M.C && not (M.c_finished !s) then (match mstep cf !s M.C with Some s' -> s := s' | None -> go := false)
+      else go := false
+    done in
+  let obs = ref [] in
+  let issue (cmds : M.cmd list) : M.obs list =
+    let before = List.length !s.M.out in
+    s := { !s with M.cmds = cmds };
+    settle ();
+    let o = List.rev !s.M.out in
+    let rec drop n l = if n <= 0 then l else match l with [] -> [] | _ :: t -> drop (n - 1) t in
+    let fresh = drop before o in
+    if not (M.c_finished !s) then obs := "KILLED" :: !obs;
+    fresh in
+  let show o = List.iter (fun x ->
+      match x with
+      | M.ORecv e -> obs := ev_str e :: !obs
+      | M.ODisc -> obs := "TIMEDOUT" :: !obs
+      | M.ONoRx -> obs := "norx" :: !obs
+      | M.OContOk -> ()
+      | M.OContEof -> obs := "cont=eof" :: !obs
+      | M.OContNoRun -> obs := "cont=norun" :: !obs
+      | M.ORunPanic -> obs := "run=panic" :: !obs) o in
+  let run () =
+    let o = issue [M.CRun (c.entries, c.outc)] in
+    show o;
+    if not (List.mem M.ORunPanic o) then show (issue [M.CRecv]) in
+  List.iter (fun b -> ignore (issue [M.CAdd [nat_of_int b]])) argb;
+  if argr then run ();
+  List.iter (fun l ->
+      if not (List.mem "KILLED" !obs) then
+      match l with
+      | "r" -> run ()
+      | "c" -> let o = issue [M.CCont] in show o; if List.mem M.OContOk o then show (issue [M.CRecv])
+      | "ba" -> ignore (issue [M.CAdd (List.map nat_of_int c.grules)])
+      | "da" -> List.iter (fun k -> ignore (issue [M.CDel (nat_of_int k)])) (List.init nnames (fun i -> i))
+      | "l" -> let v = List.sort compare (List.map (fun r -> string_of_int (int_of_n r)) !s.M.bps) in
+        obs := ("L" ^ String.concat "+" v) :: !obs
+      | x when x.[0] = 'b' -> ignore (issue [M.CAdd [nat_of_int (int_of_string (String.sub x 1 (String.length x - 1)))]])
+      | x when x.[0] = 'd' -> ignore (issue [M.CDel (nat_of_int (int_of_string (String.sub x 1 (String.length x - 1))))])
+      | _ -> failwith "bad cli line") lines;
+  String.concat "," (List.rev !obs)
+
+(* the specification, read off the property: every run / continue reports the next visit of the parse whose rule is in the breakpoint
+   set (as it is at that moment), then the plain outcome; nothing else is ever printed.  Returns None when the observation is allowed. *)
+let cli_spec (c : cfg) (argb : int list) (argr : bool) (lines : string list) (impl : string) : string option =
+  let obs = ref (List.filter (fun x -> x <> "") (String.split_on_char ',' impl)) in
+  let set = ref [] and session = ref `None and err = ref None in
+  let fail m = if !err = None then err := Some m in
+  let add k = if not (List.mem k !set) then set := k :: !set in
+  let pop () = match !obs with [] -> "(nothing)" | o :: rest -> obs := rest; o in
+  let entries = Array.of_list (List.map (fun ((r, p), _) -> (int_of_n r, int_of_n p)) c.entries) in
+  let outcome = (match c.outc with M.OEof -> "EOF" | M.OErr _ -> "ERR") in
+  let deliver from what =
+    let n = Array.length entries in
+    let rec find i = if i >= n then None else if List.mem (fst entries.(i)) !set then Some i else find (i + 1) in
+    let expected, next = (match find from with
+        | Some i -> Printf.sprintf "B%d@%d" (fst entries.(i)) (snd entries.(i)), `At (i + 1)
+        | None -> outcome, `Finished) in
+    let got = pop () in
+    if got <> expected then fail (Printf.sprintf "%s printed %s where the parse has %s (breakpoints {%s})" what got expected
+                                    (String.concat "," (List.map string_of_int (List.sort compare !set))));
+    session := next in
+  let run () =
+    (match !session, !obs with
+     | `At _, "run=panic" :: rest -> obs := rest; session := `Dead   (* the aborted parse panicked inside the VM: noted finding, session not started *)
+     | _ -> deliver 0 "run") in
+  List.iter add argb;
+  if argr then run ();
+  List.iter (fun l ->
+      if !err = None then
+      match l with
+      | "r" -> run ()
+      | "c" -> (match !session with
+          | `None -> let g = pop () in if g <> "cont=norun" then fail ("continue before any run printed " ^ g)
+          | `Finished | `Dead -> let g = pop () in if g <> "cont=eof" then fail ("continue after the end of the parse printed " ^ g)
+          | `At i -> deliver i "continue")
+      | "ba" -> List.iter add c.grules
+      | "da" -> set := []
+      | "l" -> let v = "L" ^ String.concat "+" (List.sort compare (List.map string_of_int !set)) in
+        let g = pop () in if g <> v then fail (Printf.sprintf "list printed %s, breakpoints are %s" g v)
+      | x when x.[0] = 'b' -> add (int_of_string (String.sub x 1 (String.length x - 1)))
+      | x when x.[0] = 'd' -> let k = int_of_string (String.sub x 1 (String.length x - 1)) in set := List.filter (fun y -> y <> k) !set
+      | _ -> ()) lines;
+  if !err = None && !obs <> [] then fail ("unexpected output: " ^ String.concat "," !obs);
+  !err
+
+let cli_session (c : cfg) nnames =
+  let pick () = below nnames in
+  let argb = List.filter (fun _ -> below 3 = 0) (List.init nnames (fun i -> i)) in
+  let argr = below 2 = 0 in
+  let len = 2 + below 9 in
+  let lines = List.init len (fun _ ->
+      match below 16 with
+      | 0 | 1 -> "r" | 2 | 3 | 4 | 5 | 6 | 7 -> "c" | 8 | 9 -> "b" ^ string_of_int (pick ()) | 10 -> "d" ^ string_of_int (pick ())
+      | 11 -> "ba" | 12 -> "da" | 13 -> "l" | _ -> "c") in
+  let lines = if argr || below 3 = 0 then lines else
+      (List.init (below 3) (fun _ -> "b" ^ string_of_int (pick ()))) @ ["r"] @ lines in
+  Printf.printf "%s\t%s\t%d\t%s\n" c.id (String.concat "," (List.map string_of_int argb)) (if argr then 1 else 0) (String.concat "," lines)
+
 (* ---- main ---------------------------------------------------------------------------------- *)
 let () =
   let mode = if Array.length Sys.argv > 1 then Sys.argv.(1) else "check" in
@@ -299,7 +414,36 @@ let () =
     | "CFG" :: _ -> let c = parse_cfg f in cfgs := !cfgs @ [c];
       Hashtbl.replace names c.id (List.length (String.split_on_char ',' (List.nth f 4))); true
     | _ -> false in
-  if mode = "gen" then begin
+  if mode = "gencli" then begin
+    let nrandom = int_of_string Sys.argv.(2) in
+    rng := Int64.of_string Sys.argv.(3);
+    read_lines (fun line -> if header (split_tab line) then print_endline line);
+    let n = List.length !cfgs in
+    (* the options alone, as a user would type them: -b .. -r .. then continue to the end *)
+    List.iter (fun c ->
+        let nn = Hashtbl.find names c.id in
+        List.iter (fun k -> Printf.printf "%s\t%d\t1\tc,c,c,c\n" c.id k) (List.init nn (fun i -> i));
+        Printf.printf "%s\t\t0\tba,r,c,c,l\n" c.id) !cfgs;
+    if n > 0 then for i = 1 to nrandom do let c = List.nth !cfgs (i mod n) in cli_session c (Hashtbl.find names c.id) done
+  end else if mode = "cli" then begin
+    let n = ref 0 in
+    read_lines (fun line ->
+        if String.length line > 0 && line.[0] = '#' then print_endline line else
+        let f = split_tab line in
+        if header f then () else
+        match f with
+        | id :: argb :: argr :: lines :: rest ->
+          incr n;
+          let impl = (match rest with x :: _ -> x | [] -> "") in
+          let c = List.find (fun c -> c.id = id) !cfgs in
+          let case = String.concat "\t" [id; argb; argr; lines] in
+          let expected = cli_model !fixed c (Hashtbl.find names c.id) (ints argb) (argr = "1") (cli_lines lines) in
+          (match cli_spec c (ints argb) (argr = "1") (cli_lines lines) impl with
+           | Some m -> report "spec" case impl m
+           | None -> if impl <> expected then report "model" case impl expected)
+        | _ -> ());
+    Printf.printf "#RUNNER\tcases=%d\tmismatches=%d\n" !n !mismatches
+  end else if mode = "gen" then begin
     let k = int_of_string Sys.argv.(2) and nrandom = int_of_string Sys.argv.(3) in
     rng := Int64.of_string Sys.argv.(4);
     read_lines (fun line -> if header (split_tab line) then print_endline line);
